@@ -6,10 +6,11 @@
     (a boolean on the trace, proofs/C07Link.v):
       - [params_agree]: every parameter event of a command carries the max-pause the monitor uses for it;
       - request r was routed once, before anything else happened to it, and something did happen afterwards;
+      - [time_mono]: the time stamps do not decrease along the trace (events are recorded in the order in
+        which they happen; the monitor's "timed out although a resume / stop had come earlier" compares times);
       - [one_ctl]: over the WHOLE trace the gate-set events of the pause / stop / resume commands issued for
         the name of r's service are exactly the gate-set events on the controller r read, each reporting
         the commanded state (one pause controller per service name: no second controller object for the name).
-    [c07_plain tr r]: the answer of a request the gate did not let proceed names no target.
 
     A monitor failure with one of the codes excluded below on a trace that satisfies the side condition is
     therefore, by theorem, evidence that the trace is not accepted by the gate view: the real code left the model. *)
@@ -253,29 +254,39 @@ Local Open Scope N_scope.
 
 (** Every failure the monitor reports for request r, on a trace the gate view accepts and under the side
     condition for r, is one of: a command failure, the routing / drain codes (forward, refused, stale: the
-    recorded findings D3 / D2 / overlap live there), the shortcut code, the health code of a request flagged
-    GET-on-the-health-path, "timed out late" (refuted below), or a status failure whose only cause is a 503 / 504
-    that names a target. *)
+    recorded findings D3 / D2 / overlap live there), the shortcut code, or the health code of a request flagged
+    GET-on-the-health-path. *)
 Theorem c07_link_verdict : forall tr reqs r c,
   gate_accepts tr = true -> c07_side tr r = true -> In (r, c) (c07_check tr reqs) ->
   c = F_cmd \/ c = F_forward \/ c = F_refused \/ c = F_stale \/ c = F_shortcut \/
-  (c = F_health /\ In (r, true) reqs) \/ c = F_late \/ (c = F_status /\ c07_plain tr r = false).
+  (c = F_health /\ In (r, true) reqs).
 Proof. exact link_verdict. Qed.
 Print Assumptions c07_link_verdict.
 
 (** Hence: not answered exactly once, gate state other than the commanded one, not held until one wake,
-    released without a resume / stop, timer at a wrong time, gate result inconsistent with the path taken —
+    released without a resume / stop, timer at a wrong time, timed out although a resume / stop had come
+    earlier, gate result inconsistent with the path taken, status inconsistent with the gate result —
     none of these is ever reported (whatever the health flag of the request). *)
 Theorem c07_link_gate_codes : forall tr reqs r c,
   gate_accepts tr = true -> c07_side tr r = true ->
-  In c [F_once; F_read; F_held; F_chanwake; F_timer; F_result] -> ~ In (r, c) (c07_check tr reqs).
+  In c [F_once; F_read; F_held; F_chanwake; F_timer; F_late; F_result; F_status] -> ~ In (r, c) (c07_check tr reqs).
 Proof. exact link_gate_codes. Qed.
 Print Assumptions c07_link_gate_codes.
 
-Theorem c07_link_status_partial : forall tr reqs r,
-  gate_accepts tr = true -> c07_side tr r = true -> c07_plain tr r = true -> ~ In (r, F_status) (c07_check tr reqs).
-Proof. exact link_status_partial. Qed.
-Print Assumptions c07_link_status_partial.
+(** "timed out although a resume / stop had come earlier": the gate view accepts a timer wake only at a time
+    not later than the close of the request's generation ([M5gate.step_wake]; a close wakes the select at
+    that very instant, so only the tie "same instant" is possible, and it is accepted in either order). *)
+Theorem c07_link_late : forall tr reqs r,
+  gate_accepts tr = true -> c07_side tr r = true -> ~ In (r, F_late) (c07_check tr reqs).
+Proof. exact link_late. Qed.
+Print Assumptions c07_link_late.
+
+(** "status inconsistent with the gate result": the gate view accepts, after "stopped" / "timed out", only
+    the proxy's own 503 / 504 — the answer names no target ([M5gate.step_respond]). *)
+Theorem c07_link_status : forall tr reqs r,
+  gate_accepts tr = true -> c07_side tr r = true -> ~ In (r, F_status) (c07_check tr reqs).
+Proof. exact link_status. Qed.
+Print Assumptions c07_link_status.
 
 Theorem c07_link_health : forall tr reqs r,
   gate_accepts tr = true -> c07_side tr r = true -> ~ In (r, true) reqs -> ~ In (r, F_health) (c07_check tr reqs).
@@ -286,39 +297,42 @@ Print Assumptions c07_link_health.
 Theorem c07_link_request : forall tr r hl,
   gate_accepts tr = true -> c07_side tr r = true ->
   forall c, In c (check_req (slim tr) r hl) ->
-  c = F_forward \/ c = F_refused \/ c = F_stale \/ c = F_shortcut \/ (c = F_health /\ hl = true) \/ c = F_late \/
-  (c = F_status /\ plain_answer (slim tr) r = false).
+  c = F_forward \/ c = F_refused \/ c = F_stale \/ c = F_shortcut \/ (c = F_health /\ hl = true).
 Proof. exact link_req. Qed.
 Print Assumptions c07_link_request.
 
 (** * What the views do NOT guarantee *)
 
-(** "timed out although a resume / stop had come earlier" (F_late): REFUTED.  A trace accepted by both views,
-    satisfying every side condition and matching no recorded finding, on which the monitor reports exactly
-    F_late: the generation is closed at 1 s, the request is woken by its timer at 2 s.  The gate view is too
-    permissive here ([M5gate.step_wake] by timer checks the deadline only); the monitor's demand is the
-    behaviour of a select on a closed channel and a later timer. *)
-Theorem c07_link_late_refuted :
-  exists tr reqs r, accepted tr /\ c07_side tr r = true /\ c07_plain tr r = true /\ no_pattern tr r = true /\
-                    c07_check tr reqs = [(r, F_late)].
-Proof. exact link_late_refuted. Qed.
-Print Assumptions c07_link_late_refuted.
+(** The two links that the first version of the gate view did not give (it accepted a timer wake after an
+    earlier close, and ignored the served-by field of the answer) were refuted by the traces [wit_late] and
+    [wit_by].  On both the monitor still reports F_late / F_status, the side condition holds and the path view
+    accepts — the tightened gate view rejects them, at the timer wake (event 19) and at the answer (event 17). *)
+Example c07_link_late_witness_rejected :
+  gate_accepts wit_late = false /\ first_reject gstep ginit wit_late 0 = Some 19%nat /\ path_accepts wit_late = true /\
+  c07_side wit_late 1 = true /\ c07_plain wit_late 1 = true /\ c07_check wit_late [(1%nat, false)] = [(1%nat, F_late)].
+Proof. exact wit_late_rejected. Qed.
 
-(** F_status without [c07_plain]: REFUTED ([M5gate.step_respond] ignores the served-by field). *)
-Theorem c07_link_status_refuted :
-  exists tr reqs r, accepted tr /\ c07_side tr r = true /\ no_pattern tr r = true /\
-                    c07_plain tr r = false /\ c07_check tr reqs = [(r, F_status)].
-Proof. exact link_status_refuted. Qed.
-Print Assumptions c07_link_status_refuted.
+Example c07_link_status_witness_rejected :
+  gate_accepts wit_by = false /\ first_reject gstep ginit wit_by 0 = Some 17%nat /\ path_accepts wit_by = true /\
+  c07_side wit_by 1 = true /\ c07_plain wit_by 1 = false /\ c07_check wit_by [(1%nat, false)] = [(1%nat, F_status)].
+Proof. exact wit_by_rejected. Qed.
+
+(** the tie stays accepted: the resume closes the generation at 2 s and the request is woken by its timer at
+    the same instant, AFTER the close in trace order (Go's select had both cases ready); no monitor failure *)
+Example c07_link_tie_accepted :
+  accepted wit_tie /\ c07_side wit_tie 1 = true /\ c07_check wit_tie [(1%nat, false)] = [].
+Proof. exact wit_tie_accepted. Qed.
 
 (** the side condition is needed: accepted traces with a request that is routed and then lost (F_once), routed
     twice (F_held), a pause command with two parameter events (F_timer), a controller resumed by a command
-    issued for another name (F_chanwake) *)
+    issued for another name (F_chanwake), time stamps running backwards (F_late: the generation of the request
+    is closed at 3 s, a later resume of a later generation is stamped 1 s, the timer fires at 2 s) *)
 Theorem c07_link_needs_side :
   (exists tr reqs r, accepted tr /\ c07_check tr reqs = [(r, F_once)]) /\
   (exists tr reqs r, accepted tr /\ c07_check tr reqs = [(r, F_held)]) /\
   (exists tr reqs r, accepted tr /\ c07_check tr reqs = [(r, F_timer)]) /\
-  (exists tr reqs r, accepted tr /\ In (r, F_chanwake) (c07_check tr reqs)).
+  (exists tr reqs r, accepted tr /\ In (r, F_chanwake) (c07_check tr reqs)) /\
+  (exists tr reqs r, accepted tr /\ time_mono (slim tr) = false /\ c07_check tr reqs = [(r, F_late)]).
 Proof. exact link_needs_side. Qed.
 Print Assumptions c07_link_needs_side.
 
